@@ -624,8 +624,7 @@ def _write_back_source(ctx: Ctx):
     rel = f.module.relname
     rd = ReachingDefs(f.node)
     saves = [c for c in own_calls(f.node) if call_name(c) == "torch.save" and c.args]
-    if len(saves) < 3:
-        raise AnalysisError("C12: fewer than three write-back sites in _info_and_validate")
+    col.floor("write_back_sites", len(saves), 3)
     via_view = []
     for c in saves:
         der = rd.derives(c.args[0])
